@@ -18,7 +18,7 @@ From V Require Import Base.Int Base.IO.
 From V Require Import Spec.Zone Proofs.TzCommon.
 From V Require Spec.Gregorian.
 From V Require Import Model.TzParser Model.TzRule Model.TzLookup Model.C05 Proofs.C05 Proofs.C05Composite Proofs.C05Glue Proofs.C05Judge Proofs.C05Wide Proofs.C05Full Proofs.C05Holds Proofs.C05Ops Proofs.C05OpsZones Proofs.C05OpsComposite Proofs.C05OpsAll.
-From V Require Model.Date Model.DateTime.
+From V Require Model.Date Model.DateTime Model.Scan Model.FromStr Model.C02 Model.TimeDelta Proofs.C05Conv Proofs.C05Asg Proofs.C03 Proofs.C06.
 Import ListNotations.
 Open Scope Z_scope.
 
@@ -981,6 +981,102 @@ Theorem C05_holds_env : forall b zm dir xs zone sz,
   J.judge B"lz.env" [VStr b; zm; VInt dir; xs] (run B"lz.env" [VStr b; zm; VInt dir; xs]) = JOk.
 Proof. exact holds_env. Qed.
 Print Assumptions C05_holds_env.
+
+(* lz.conv: the conversions into DateTime<Local> - impl From<DateTime<Utc>>, impl From<DateTime<FixedOffset>>,
+   impl FromStr (on the Debug text of the DateTime<FixedOffset> source), impl From<SystemTime> - and out of it
+   (impl From<DateTime<Local>> for DateTime<Utc> / for DateTime<FixedOffset>) through the public route.
+   Function level: all four conversions into Local are Local.from_utc_datetime of the source's naive UTC reading
+   (the source's own offset plays no role); the two conversions out of Local keep the naive UTC reading, with
+   offset 0 / the Local value's own offset; FromStr passes a parser error on and converts a parsed value;
+   From<SystemTime> converts C02's DateTime<Utc>. *)
+Theorem C05_conversions_into_local : forall z src,
+  local_from_utc z src = from_utc_datetime z (DateTime.dz_utc src) /\
+  local_from_fixed z src = from_utc_datetime z (DateTime.dz_utc src).
+Proof. exact Proofs.C05Conv.conv_into_local. Qed.
+Print Assumptions C05_conversions_into_local.
+Theorem C05_conversions_out_of_local : forall l,
+  utc_from_local l = DateTime.mk_dtz (DateTime.dz_utc l) 0 /\
+  fixed_from_local l = DateTime.mk_dtz (DateTime.dz_utc l) (DateTime.dz_off l).
+Proof. exact Proofs.C05Conv.conv_out_of_local. Qed.
+Print Assumptions C05_conversions_out_of_local.
+Theorem C05_local_from_str : forall z s,
+  (forall e, Model.FromStr.datetime_fixed_from_str s = Val (Model.Scan.PErr e) ->
+     local_from_str z s = Val (Model.Scan.PErr e)) /\
+  (forall dt l, Model.FromStr.datetime_fixed_from_str s = Val (Model.Scan.POk dt) ->
+     from_utc_datetime z (DateTime.dz_utc dt) = Val l -> local_from_str z s = Val (Model.Scan.POk l)).
+Proof. exact Proofs.C05Conv.local_from_str_spec. Qed.
+Print Assumptions C05_local_from_str.
+Theorem C05_local_from_systime : forall z before ds dn u l,
+  Model.C02.dt_from_systime before ds dn = Val u -> from_utc_datetime z (DateTime.dz_utc u) = Val l ->
+  local_from_systime z before ds dn = Val l.
+Proof. exact Proofs.C05Conv.local_from_systime_spec. Qed.
+Print Assumptions C05_local_from_systime.
+(* the op's observation at an instant x (whole seconds, three days inside chrono's range) at which
+   Local.from_utc_datetime selects the offset o: six (offset, timestamp) pairs, every one at the instant x,
+   offset o on the Local / FixedOffset results and 0 on the Utc result; the text step is C09's
+   Debug -> FromStr round trip, the SystemTime step C02's specification *)
+Theorem C05_conv_value : forall zone n x o,
+  arg_secs (VInt x) = Some n -> J.ts_ok x = true ->
+  from_utc_datetime zone n = Val (DateTime.mk_dtz n o) ->
+  op_conv zone n =
+    VTup [VTup [VInt o; VInt x]; VTup [VInt o; VInt x]; VTup [VInt 0; VInt x]; VTup [VInt o; VInt x];
+          VTup [VInt o; VInt x]; VTup [VInt o; VInt x]].
+Proof. exact Proofs.C05Conv.conv_value. Qed.
+Print Assumptions C05_conv_value.
+(* dispatcher against judge, in the style of C05_holds_env: every batch; the judge itself skips the instants
+   in whose year the rule is not regular (they belong to the known-finding op lz.uat) *)
+Theorem C05_holds_conv : forall b zm xs zone sz,
+  lookup_ok zone sz -> parse b = Val (Ok zone) -> J.dec_zone (VStr b) zm = Some sz ->
+  J.judge B"lz.conv" [VStr b; zm; xs] (run B"lz.conv" [VStr b; zm; xs]) <> JSkip ->
+  J.judge B"lz.conv" [VStr b; zm; xs] (run B"lz.conv" [VStr b; zm; xs]) = JOk.
+Proof. exact Proofs.C05Conv.holds_conv. Qed.
+Print Assumptions C05_holds_conv.
+
+(* lz.asg: impl AddAssign<TimeDelta> / SubAssign<TimeDelta> / AddAssign<Duration> / SubAssign<Duration> for
+   DateTime<Tz> at Tz = Local (public route).  The zone is resolved AGAIN at the new instant:
+   for every operand a (whatever offset it carries), every valid duration rhs and every supported naive value n'
+   whose instant is the operand's instant moved by rhs, the result is exactly what Local.from_utc_datetime gives
+   at n' - in particular offset after `+=` = offset_at(new instant), the old offset is not kept. *)
+Theorem C05_add_assign_reresolves : forall zone a rhs n' v,
+  Proofs.C03.nvalid (DateTime.dz_utc a) -> Proofs.C06.valid rhs -> Proofs.C03.nvalid n' ->
+  Proofs.C03.inst n' = Proofs.C03.inst (DateTime.dz_utc a) + Proofs.C06.ns rhs ->
+  from_utc_datetime zone n' = v -> local_add_assign zone a rhs = v.
+Proof. exact Proofs.C05Asg.add_assign_at. Qed.
+Print Assumptions C05_add_assign_reresolves.
+Theorem C05_sub_assign_reresolves : forall zone a rhs n' v,
+  Proofs.C03.nvalid (DateTime.dz_utc a) -> Proofs.C06.valid rhs -> Proofs.C03.nvalid n' ->
+  Proofs.C03.inst n' = Proofs.C03.inst (DateTime.dz_utc a) - Proofs.C06.ns rhs ->
+  from_utc_datetime zone n' = v -> local_sub_assign zone a rhs = v.
+Proof. exact Proofs.C05Asg.sub_assign_at. Qed.
+Print Assumptions C05_sub_assign_reresolves.
+(* Panic exactly when the checked form of the naive addition is None (the operators' documented panic); a
+   value goes to the lookup at that value *)
+Theorem C05_assign_panics_iff_checked_none : forall zone a rhs,
+  (DateTime.ndt_checked_add_signed (DateTime.dz_utc a) rhs = Val None -> local_add_assign zone a rhs = Panic) /\
+  (DateTime.ndt_checked_sub_signed (DateTime.dz_utc a) rhs = Val None -> local_sub_assign zone a rhs = Panic) /\
+  (forall b, DateTime.ndt_checked_add_signed (DateTime.dz_utc a) rhs = Val (Some b) ->
+     local_add_assign zone a rhs = from_utc_datetime zone b) /\
+  (forall b, DateTime.ndt_checked_sub_signed (DateTime.dz_utc a) rhs = Val (Some b) ->
+     local_sub_assign zone a rhs = from_utc_datetime zone b).
+Proof. exact Proofs.C05Asg.assign_panics. Qed.
+Print Assumptions C05_assign_panics_iff_checked_none.
+(* the core::time::Duration forms: TimeDelta::from_std(..).expect(..) first, then the TimeDelta form *)
+Theorem C05_assign_std : forall zone a ds dn,
+  match Model.TimeDelta.from_std ds dn with
+  | Some rhs => local_add_assign_std zone a ds dn = local_add_assign zone a rhs /\
+                local_sub_assign_std zone a ds dn = local_sub_assign zone a rhs
+  | None => local_add_assign_std zone a ds dn = Panic /\ local_sub_assign_std zone a ds dn = Panic
+  end.
+Proof. exact Proofs.C05Asg.assign_std. Qed.
+Print Assumptions C05_assign_std.
+(* dispatcher against judge: every zone under the contract, every delta, every batch; the judge (Spec.Zone's
+   zone_off at the NEW instant) accepts the model's output *)
+Theorem C05_holds_asg : forall b zm d xs zone sz,
+  lookup_ok zone sz -> parse b = Val (Ok zone) -> J.dec_zone (VStr b) zm = Some sz ->
+  J.judge B"lz.asg" [VStr b; zm; VInt d; xs] (run B"lz.asg" [VStr b; zm; VInt d; xs]) <> JSkip ->
+  J.judge B"lz.asg" [VStr b; zm; VInt d; xs] (run B"lz.asg" [VStr b; zm; VInt d; xs]) = JOk.
+Proof. exact Proofs.C05Asg.holds_asg. Qed.
+Print Assumptions C05_holds_asg.
 
 (* the contract, for the three kinds of zone *)
 Theorem C05_lookup_table : forall zone ps first,
